@@ -127,6 +127,9 @@ type World struct {
 	Manifest Manifest   `json:"manifest"`
 	Vulns    []VulnSpec `json:"vulns,omitempty"`
 	Opts     Opts       `json:"opts"`
+	// VersionsOrder is the order in which the registry lists the versions of a package to
+	// the strategies (resolve.Client.Versions promises none): "" = ascending, "desc", "rot".
+	VersionsOrder string `json:"versions_order,omitempty"`
 }
 
 // Fault is one transient registry/matcher error: the K-th scheduling step of a phase fails.
@@ -473,7 +476,11 @@ func (w *World) describe() string {
 		vs = append(vs, v.ID+sevStr(v.Severity)+":"+strings.Join(as, "+"))
 	}
 	ob, _ := json.Marshal(w.Opts)
-	return fmt.Sprintf("%s/%s manifest: %s | vulns: %s | opts: %s | universe:\n%s", w.Sys, w.Mode, man, strings.Join(vs, " "), ob, w.schemaText())
+	ord := ""
+	if w.VersionsOrder != "" {
+		ord = " | registry lists versions " + w.VersionsOrder
+	}
+	return fmt.Sprintf("%s/%s manifest: %s | vulns: %s | opts: %s%s | universe:\n%s", w.Sys, w.Mode, man, strings.Join(vs, " "), ob, ord, w.schemaText())
 }
 
 func scopeStr(s string) string {
